@@ -135,7 +135,7 @@ def oracle_ident(rec, lines):
 
 def explore(chk, harness, nk, nf, ni, sizes, tag):
     rng = lib.Rng(chk.seed, "C01/" + tag)
-    krecs = K.gen_kick_cases(rng, nk, sizes)
+    krecs = K.gen_kick_cases(rng, nk, sizes) + ([K.table_edge_witness()] if tag == "main" else [])
     frecs = gen_fp_cases(rng, nf, [s for s in sizes if s >= 8] or [8])
     irecs = gen_ident_cases(rng, ni)
     optexts = {r["id"]: r["optext"] for r in krecs + frecs + irecs}
@@ -194,6 +194,14 @@ def run(chk):
     if san:
         chk.violation("sanitizer/abort in the implementation while applying maps: " + san[:300],
                       "# harness aborted\n" + san + "\n" + "".join(optexts.values())[:200000], tag="sanitizer")
+    new_fails = []
+    for r, f in fails:
+        key = "kick-table-edge" if r.get("table_edge") else None
+        if key and chk.known_match(key):
+            chk.violation(f, "", key=key)   # listed finding: KNOWN-FINDING line, no alarm
+            continue
+        new_fails.append((r, f))
+    fails = new_fails
     for r, f in fails:
         chk.violation("charge not conserved: %s [%s]" % (f, shrink_note(r)),
                       "# C01 oracle failure: %s\n# %s\n%s" % (f, shrink_note(r), r["optext"]),
@@ -209,6 +217,7 @@ def run(chk):
         krecs2, frecs2, irecs2, opt2, mism2, drift2, san2, fails2 = explore(
             chk, harness, 1500, 400, 10, [4, 5, 8, 16, 17, 24, 32], "search")
         chk.cov["search"] = {"cases": len(krecs2) + len(frecs2), "oracle_failures": len(fails2)}
+        fails2 = [(r, f) for r, f in fails2 if not (r.get("table_edge") and chk.known_match("kick-table-edge"))]
         if fails2:
             r, f = fails2[0]
             chk.violation("charge not conserved: %s [%s]; broken: %s" % (f, shrink_note(r), broken[0][:300]),
